@@ -1,6 +1,6 @@
 (* C06: the reader returns every record once, in order, exact bases, for all containers. *)
 From Coq Require Import NArith List Lia String.
-From KT Require Import Gen.Generated Gen.GeneratedFacts Model.Show Model.Reader Proof.Fasta Proof.Fastq.
+From KT Require Import Gen.Generated Gen.GeneratedFacts Model.Show Model.Reader Proof.Fasta Proof.Fastq Proof.ReaderProof.
 Import ListNotations.
 Open Scope N_scope.
 Notation length := List.length.
@@ -34,6 +34,25 @@ Theorem C06_all_gzip_members_are_read :
   forall path ms ms', concat ms = concat ms' -> m_read path ms = m_read path ms'.
 Proof. intros path ms ms' H. unfold m_read, file_content. rewrite H. reflexivity. Qed.
 
+(* end to end on the executable reader model: any path with a FASTA (FASTQ) suffix, the stream cut into any
+   gzip members, lines ended by LF (the last one possibly not): the reader returns the generating records,
+   numbered from 0, and the statistics pass agrees (s_read renders records, count and total bases) *)
+Theorem C06_reader_returns_the_printed_records_fasta :
+  forall path ms rs bodies last,
+  format_of path = Some Fasta -> concat ms = stream bodies last ->
+  Forall wf_rec rs -> Forall (fun b => ~ In LF b) bodies -> ~ In LF last ->
+  printed rs (stream_lines bodies last) ->
+  m_read path ms = s_read (str "fa"%string) (map (fun r => (rid r, rseq r)) rs).
+Proof. exact read_printed_fasta. Qed.
+
+Theorem C06_reader_returns_the_printed_records_fastq :
+  forall path ms rs bodies last,
+  format_of path = Some Fastq -> concat ms = stream bodies last ->
+  Forall wf_recq rs -> Forall (fun b => ~ In LF b) bodies -> ~ In LF last ->
+  printed_qs rs (stream_lines bodies last) ->
+  m_read path ms = s_read (str "fq"%string) (map (fun r => (qid r, qseq r)) rs).
+Proof. exact read_printed_fastq. Qed.
+
 (* records are numbered 0,1,2,... without gaps *)
 Theorem C06_numbering : forall l i, map fst (number_from i l) = seq i (length l).
 Proof. induction l as [|x t IH]; intros i; cbn; [reflexivity|]. now rewrite IH. Qed.
@@ -56,5 +75,7 @@ Print Assumptions C06_fastq_roundtrip.
 Print Assumptions C06_lines_of_stream.
 Print Assumptions C06_all_gzip_members_are_read.
 Print Assumptions C06_numbering.
+Print Assumptions C06_reader_returns_the_printed_records_fasta.
+Print Assumptions C06_reader_returns_the_printed_records_fastq.
 Print Assumptions C06_format_of_documented_suffixes.
 Print Assumptions C06_suffix_table.
